@@ -7,6 +7,7 @@ CONSTANTS
   MaxClock = 0
   MaxRm = 1
   Interval = 0
+  RegOrder = "locked"
   RemoveBy = "instance"
   Results = {"keep", "stop"}
   KeepHist = "all"
